@@ -8,7 +8,7 @@ package api
 // name. 1..4 routes per case, each with its own outcome script, interleaved:
 //   benign   the handler answers a final status below 500 (or writes a body
 //            without WriteHeader), optionally after 1..2 interim 1xx responses
-//            (only without the buffering timeout guard), plus at most five
+//            (with and without the buffering timeout guard), plus at most five
 //            failures: never answered 503 by the breaker;
 //   failing  >= 200 requests that each end in a final status >= 500 and/or in a
 //            handler panic before anything was written: cut off at least once;
@@ -61,7 +61,7 @@ type c01CStep struct {
 	N int   `json:"n"`           // route index; -1: no request, the whole case sleeps 11 s (longer than the 10 s window)
 	K int   `json:"k,omitempty"` // 0 answer status C; 1 panic before writing anything; 2 answer status C, then panic
 	C int   `json:"c,omitempty"` // final status; 0 = body without WriteHeader
-	I []int `json:"i,omitempty"` // interim 1xx responses sent first (only when T == 0)
+	I []int `json:"i,omitempty"` // interim 1xx responses sent first
 }
 
 type c01CCase struct {
@@ -83,9 +83,8 @@ func c01GenChain(rt *rapid.T) c01CCase {
 	benignCode := rapid.OneOf(rapid.SampledFrom([]int{0, 200, 204, 301, 400, 401, 404, 429, 499, 499}), rapid.IntRange(200, 499))
 	failingCode := rapid.OneOf(rapid.SampledFrom([]int{500, 500, 502, 503, 504, 599}), rapid.IntRange(500, 599))
 	interim := func() []int {
-		if c.T != 0 {
-			return nil
-		}
+		// with and without the buffering timeout guard: since f1e5d0a the guard passes over
+		// informational statuses, the first other status is the response status in both set-ups
 		n := rapid.SampledFrom([]int{0, 0, 1, 1, 2}).Draw(rt, "ni")
 		var out []int
 		for i := 0; i < n; i++ {
@@ -303,9 +302,6 @@ func c01InterpChain(t *testing.T, c c01CCase) (v kit.Verdict) {
 				continue
 			}
 			n := st.N % c.K
-			if c.T != 0 {
-				st.I = nil
-			}
 			cur = st
 			if st.failing() {
 				nfail[n]++
@@ -399,10 +395,16 @@ func c01InterpChain(t *testing.T, c c01CCase) (v kit.Verdict) {
 		switch {
 		case kd == 1 && st.K == 1:
 			classes["failing-route-panics"] = true
-		case kd == 1 && len(st.I) > 0 && c.T == 0:
+		case kd == 1 && len(st.I) > 0:
 			classes["failing-route-interim-then-5xx"] = true
-		case kd == 0 && len(st.I) > 0 && c.T == 0 && st.benign():
+			if c.T != 0 {
+				classes["failing-route-interim-then-5xx-behind-timeout-guard"] = true
+			}
+		case kd == 0 && len(st.I) > 0 && st.benign():
 			classes["benign-route-interim"] = true
+			if c.T != 0 {
+				classes["benign-route-interim-behind-timeout-guard"] = true
+			}
 		case kd == 2 && st.K == 2:
 			classes["mixed-write-then-panic"] = true
 		}
